@@ -27,7 +27,9 @@ Pool == <<
   "(trace! (try (undefined-%T 1) (catch e :caught)))",
   "(def cnt%T (fn [n] (if (< n 1) :done (cnt%T (- n 1))))) (trace! (cnt%T 100))",
   "(trace! (let [e 1] (try (throw 2) (catch e (+ e %T)) (finally (trace! e)))))",
-  "(def x%T 1) (def x%T (+ x%T 1)) (trace! (let [x%T 10] (def y%T x%T) x%T)) (trace! x%T)" >>
+  "(def x%T 1) (def x%T (+ x%T 1)) (trace! (let [x%T 10] (def y%T x%T) x%T)) (trace! x%T)",
+  "(trace! (let [fu (future (+ 1 %T)) q 2 r (+ q 1) s (list q r)] (list @fu q r s)))",
+  "(def fu%T (future (reduce + 0 [1 2 3 %T]))) (trace! (let [w @fu%T] (list w @fu%T)))" >>
 NP == Len(Pool)
 
 RECURSIVE SubstT(_, _, _)
